@@ -84,3 +84,14 @@ package rel
 //@   ensures[C08] short: evalok(e.a, ctx, sc(local)) && istrue(evalv(e.a, ctx, sc(local))) ==> err == nil && v == evalv(e.a, ctx, sc(local))
 //@   ensures[C08] lazy: evalok(e.a, ctx, sc(local)) && istrue(evalv(e.a, ctx, sc(local))) ==> forall y: Val :: evald[y] && !old(evald)[y] ==> evunder(y, e.a)
 //@   ensures[C08] full: evalok(e.a, ctx, sc(local)) && !istrue(evalv(e.a, ctx, sc(local))) && evalok(e.b, ctx, sc(local)) ==> err == nil && v == evalv(e.b, ctx, sc(local))
+
+// ---- dict literals evaluated at run time (expr_dict.go) -------------------------------------------------------------
+// The relation form {|@, @value| ...} may repeat a key (allowDupKeys), the dict form {k: v, ...} may not: the flag the
+// parser chose must reach NewDict on the run-time path exactly as on the constant-folding path (NewDictExpr).
+//@ func (DictExpr).Eval(e; ctx, local)
+//@   tags C08, C10
+//@   returns (v, err)
+//@   requires forall i in 0..len(e.entryExprs) :: e.entryExprs[i].at != nil && e.entryExprs[i].value != nil
+//@   ensures[C18] c18unit: true
+//@   ensures[C08] dupflag: err == nil ==> lastcall("rel.NewDict", 0) == e.allowDupKeys
+//@   loop 0 invariant fr: freshOrNil(entryExprs)
